@@ -226,6 +226,39 @@ func c07Scenario(bt baseTrace, p int, deadline bool, other int) cwScenario {
 		Tags: []string{"c07", "kind:" + bt.Kind, "trace:" + bt.Name, "how:" + how, fmt.Sprintf("other:%d", other), fmt.Sprintf("prefix:%d", p)}}
 }
 
+// c07FaultScenario: as c07Scenario, but exactly the Write of the RST_STREAM fails (a per-message failure, the
+// connection stays healthy): the caller's side of the property must hold all the same - its pending operations
+// return, every later operation reports the context's status; the handler is not judged (it never learns).
+func c07FaultScenario(bt baseTrace, p int, deadline bool, other int) cwScenario {
+	sc := c07Scenario(bt, p, deadline, other)
+	var steps []Step
+	cut := -1
+	c := 0
+	if other != 0 {
+		c = 1
+	}
+	for i, st := range sc.Steps {
+		if cut < 0 && ((deadline && st.Op == "tick" && st.D == 5000) || (!deadline && st.Op == "cancel")) {
+			steps = append(steps, Step{Op: "wfail", B: 1}, st, Step{Op: "drain"}, Step{Op: "wfail", B: 0})
+			cut = i
+			continue
+		}
+		if cut >= 0 && st.Op == "h" && st.H != nil && st.C == c && (st.H.Op == "await" || st.H.Ctx) {
+			// the handler of the cancelled call cannot wait for a cancellation that never reaches it
+			if st.H.Op == "await" {
+				continue
+			}
+			h := *st.H
+			h.Ctx = false
+			st.H = &h
+		}
+		steps = append(steps, st)
+	}
+	sc.Steps = steps
+	sc.Tags = append(sc.Tags, "fault:rst-write-fails")
+	return sc
+}
+
 // ---------------------------------------------------------------- C11
 
 func bodyEnv(call int, b int64) *EnvSpec {
@@ -308,7 +341,7 @@ func c11CallerAbandons(kind string, m, extra int, how string, others int, probeD
 	pre, post, c := c11Others(others)
 	s := append([]Step{}, pre...)
 	open := Step{Op: "open", Kind: kind}
-	if how == "deadline" {
+	if how == "deadline" || how == "deadline-rstfail" {
 		open.D = 3000
 	}
 	s = append(s, open, Step{Op: "c2s"}, Step{Op: "send", C: c, B: 10}, Step{Op: "c2s"}, hop(c, HOp{Op: "recv"}))
@@ -326,6 +359,12 @@ func c11CallerAbandons(kind string, m, extra int, how string, others int, probeD
 		s = append(s, Step{Op: "tick", D: 3000})
 	case "stop-reading":
 		// the caller never reads again; the handler finishes
+	case "cancel-rstfail":
+		// exactly the Write of the RST_STREAM fails (a per-message failure: the connection stays healthy); the handler
+		// never learns of the cancellation and keeps sending
+		s = append(s, Step{Op: "wfail", B: 1}, Step{Op: "cancel", C: c}, Step{Op: "drain"}, Step{Op: "wfail", B: 0})
+	case "deadline-rstfail":
+		s = append(s, Step{Op: "wfail", B: 1}, Step{Op: "tick", D: 3000}, Step{Op: "drain"}, Step{Op: "wfail", B: 0})
 	}
 	s = append(s, Step{Op: "drain"}, hop(c, HOp{Op: "send", B: 40}), hop(c, HOp{Op: "return"}), Step{Op: "drain"})
 	s = append(s, probeSteps(probeDl)...)
@@ -374,6 +413,42 @@ func c11OverSending(shape string, d int, probeDl bool) cwScenario {
 		for i := 0; i < 2; i++ {
 			s = append(s, Step{Op: "peer", Env: bodyEnv(0, int64(40+i))})
 		}
+	case "stream-unread-cancel-rstfail", "stream-unread-deadline-rstfail", "stream-unread-badmd-rstfail":
+		// d%4 bodies nobody reads; the call is cancelled / its deadline expires / the peer's first response carries
+		// undecodable metadata (the client aborts the stream with a reset); exactly the Write of that RST_STREAM fails,
+		// reads and later writes work; then the peer, which never learnt of it, sends 2 + d/4 further envelopes
+		// (the last one a trailer when d is odd)
+		open := Step{Op: "open", Kind: "Bidi"}
+		if shape == "stream-unread-deadline-rstfail" {
+			open.D = 700
+		}
+		s = append(s, open)
+		unread := d % 4
+		for i := 0; i < unread; i++ {
+			s = append(s, Step{Op: "peer", Env: bodyEnv(0, int64(30+i))})
+		}
+		s = append(s, Step{Op: "wfail", B: 1})
+		switch shape {
+		case "stream-unread-cancel-rstfail":
+			s = append(s, Step{Op: "cancel", C: 0})
+		case "stream-unread-deadline-rstfail":
+			s = append(s, Step{Op: "tick", D: 700})
+		case "stream-unread-badmd-rstfail":
+			for i := 0; i < unread; i++ {
+				s = append(s, Step{Op: "recv", C: 0})
+			}
+			s = append(s, Step{Op: "peer", Env: &EnvSpec{Call: 0, Hdr: "bad", Body: i64(35), Trl: "none"}}, Step{Op: "recv", C: 0})
+		}
+		s = append(s, Step{Op: "wfail", B: 0})
+		further := 2 + d/4
+		for i := 0; i < further; i++ {
+			if i == further-1 && d%2 == 1 {
+				s = append(s, Step{Op: "peer", Env: trlEnv(0, 0)})
+			} else {
+				s = append(s, Step{Op: "peer", Env: bodyEnv(0, int64(40+i))})
+			}
+		}
+		s = append(s, Step{Op: "recv", C: 0})
 	}
 	p := Step{Op: "unary", B: 77}
 	if probeDl {
@@ -431,6 +506,21 @@ func c11Scenarios(full bool) []cwScenario {
 		for d := 1; d <= N; d++ {
 			for pd := 0; pd < 2; pd++ {
 				out = append(out, c11OverSending(shape, d, pd == 1))
+			}
+		}
+	}
+	// per-envelope write faults on the teardown paths: exactly the RST_STREAM of the abandoned stream is refused
+	for _, shape := range []string{"stream-unread-cancel-rstfail", "stream-unread-deadline-rstfail", "stream-unread-badmd-rstfail"} {
+		for d := 0; d < 2*N; d++ {
+			out = append(out, c11OverSending(shape, d, d%2 == 0))
+		}
+	}
+	for _, kind := range []string{"Bidi", "SStream"} {
+		for m := 0; m <= N; m++ {
+			for _, how := range []string{"cancel-rstfail", "deadline-rstfail"} {
+				for others := 0; others <= 2; others++ {
+					out = append(out, c11CallerAbandons(kind, m, (m+others)%2, how, others, (m+others)%2 == 1))
+				}
 			}
 		}
 	}
